@@ -7,12 +7,27 @@ from .vecgen import Cfg
 def _vector_prop(prop):
     def fn(report, tier):
         vecprops.check_vector_property(prop, report, tier)
-        if prop in ("C02", "C06"):
+        if prop in ("C02", "C06", "C05"):
             # the same ledgers on the sets (instrumented elements / ledger allocators of the set driver)
             from . import setprops
             vec_cov = dict(report.coverage)
+            n0 = len(report.violations)
             cov = setprops.run_oracles(prop, tier, report)
+            if prop == "C05":
+                # inline/large state, size and contents of every SmallSet after every step against the extracted set model
+                from . import setcorr
+                sjobs = [(j, r) for j, r in zip(report._last_jobs, report._last_results) if j[0].startswith("SS")]
+                diffs, cnt = setcorr.run(prop, report, [j for j, _ in sjobs], [r for _, r in sjobs])
+                cov["set_correspondence"] = cnt
+                if diffs and len(report.violations) == n0:
+                    d = diffs[0]
+                    report.violation({"config": d["config"], "script": d["script"], "broken": ["corr:C05:%s" % d["field"]], "model": d["model"], "observed": d["impl"],
+                                      "found_by": "correspondence", "no_failing_input_found": True},
+                                     "correspondence %s: model and implementation disagree on %s (model %s, implementation %s)\n  script: %s"
+                                     % (d["config"], d["field"], d["model"], d["impl"], " ; ".join(d["script"][-8:])), True)
             report.coverage = vec_cov
+            if "set_correspondence" in cov:
+                report.coverage["sets_correspondence"] = cov["set_correspondence"]
             report.coverage["sets"] = {k: cov[k] for k in ("evaluations", "histories", "distinct_nontrivial", "configurations", "oracle_violations_total")}
             report.coverage["evaluations"] += cov["evaluations"]
             report.coverage["distinct_nontrivial"] += cov["distinct_nontrivial"]
